@@ -38,6 +38,10 @@ CHECKS['C07'] = ('E1', 'model_checking',
     'Explicit-state BFS over histories of register / unregister / probe fire / broadcast fire / single ticks of any root on pools of 3-4 real components, started from several initial forests (flat, chain of 2, chain of 3, chain of 4); canonical state = forest + pending flags + per-root queue contents + handler caches. After every operation: parent/child links agree, no cycles, root = top of tree; after a final drain: one registered/unregistered event object per completed operation and never twice to one component, probes queued on a detached component are delivered exactly once after it is registered, no probe is delivered twice, and nothing reaches a component that was not in the firing tree between fire and dispatch (detached subtrees receive nothing further).',
     'Trusted: preconditions read from the real object graph at operation boundaries; eventual completion of every requested unregistration is not judged (statement does not promise it) - counted in evidence.',
     'explicit-state BFS over operation histories of real component trees with canonical-state dedup', 'DESIGN.md 6/C07')
+CHECKS['C09'] = ('E3', 'model_checking',
+    'Real Timer components (1-3 per program; intervals {0, 1/2, 1, 5/2}; persistent or one-shot; float or absolute datetime deadline; created at virtual time 0 or 1/2; optional reset()/unregister() at grid times; optional event chain and generator task in the background) run under the real run() on a virtual clock. Every environment script with <=k deviations (each idle wait: as requested / 1/8 late / half = spurious early wake; each loop iteration: cost 0 / 1/8) is executed; on every execution: no firing before start+interval (whole-second deadline for datetimes), one-shots fire once and remove themselves, persistent firings are >= interval apart and stop after unregistration, reset() restarts, no idle wait is requested past the earliest pending expiry, and a timer that is due when its loop iteration starts fires in that iteration.',
+    'Trusted: virtual clock and virtual wait doubles (module globals time / helpers.Event, TIMEOUT patched to 1/8 for exact arithmetic); the instance-level spy on Timer.fire; fallback idle wait only.',
+    'deviation-bounded exhaustive enumeration of environment answers on a virtual clock, real run() and real Timer', 'DESIGN.md 3/E3, 6/C09')
 NOT_YET = {}
 def main():
     props = [json.loads(l) for l in open(os.path.join(HERE, 'properties.jsonl'))]
